@@ -37,4 +37,4 @@ LEVEL_TEXT = ("c14_decision_complete: in every history, any step that takes the 
               "forbidden windows directly; c14_never_later: once interactive, never again; c14_prefix_counterexample exhibits the pre-fix race. fg_decision_complete / fg_no_partial: the same for the "
               "fine-grained system in which handle_select1_or_exit0's two reads and its action are separate steps with arbitrary steps of the other threads in between (the positive reads are "
               "still true when it acts: monotone flags). Tie: forced-schedule sessions on the real Model.")
-LEVEL_NOTE = ("Same models and trusted base as C01 (safety at read granularity, Model/SessionFG.lean; trace replay on the coarse system with atomic handlers and stale-false reads; hooks; linearisation in vlib/props/session.py). `--sync` shares the code path and is exercised only through select-1/exit-0.")
+LEVEL_NOTE = ("Same models and trusted base as C01 (safety at read granularity, Model/SessionFG.lean; heart beats replayed in trace order at read granularity; hooks; linearisation in vlib/props/session.py). `--sync` shares the code path and is exercised only through select-1/exit-0.")
